@@ -286,6 +286,11 @@ func TestRoundTrip(t *testing.T) {
 				continue
 			}
 			want := s.Grid()
+			for _, c := range s.Cells { // the read-back sees stored values, also those a merged range hides
+				if c.Stale {
+					want[[2]int{c.Row, c.Col}] = c.Display()
+				}
+			}
 			if len(want) != len(grids[i]) {
 				rt.Fatalf("sheet %d: %d displayed cells, want %d", i, len(grids[i]), len(want))
 			}
